@@ -145,6 +145,7 @@ def run(repo, tier):
     r.rule("R9.1", "no iteration / arbitrary pick over a set-typed value unless sorted or order-insensitive", floor=1)
     r.rule("R9.2", "no run-time mutated process-global object flows into expression constructors, reference names or emitted text", floor=2)
     r.rule("R9.3", "no ordering or sort key is computed from id() or hash()", floor=1)
+    r.rule("R9.4", "memoisation (lru_cache/cache) of a function that dispatches on the type of its argument is typed", floor=2)
 
     files = [f for f in repo.py_files() if in_scope(f)]
     if len(files) < 15:
@@ -260,6 +261,30 @@ def run(repo, tier):
                              f"class-level `{nm}` is shared by all instances, mutated by {writers} and read by {bad} on the way to an expression/name constructor", loc(rel, st))
     if n_src < 2:
         raise AnalysisError(f"R9.2 recognised only {n_src} process-global mutable sources; expected at least Context.__init__(paths=[]) and definition._registry")
+
+    # ------------------------------------------------------------------ R9.4 memoised functions are process-global state
+    n94 = 0
+    for rel in repo.py_files():
+        if rel.startswith("special/") or rel in ("textimage.py", "_version.py"):
+            continue
+        for f in [n for n in ast.walk(repo.tree(rel)) if isinstance(n, ast.FunctionDef)]:
+            for d in f.decorator_list:
+                nm = dotted(d.func) if isinstance(d, ast.Call) else dotted(d)
+                if not nm or nm.split(".")[-1] not in ("lru_cache", "cache"):
+                    continue
+                n94 += 1
+                typed = isinstance(d, ast.Call) and any(kw.arg == "typed" and isinstance(kw.value, ast.Constant) and kw.value.value is True for kw in d.keywords)
+                params = {a.arg for a in f.args.args}
+                type_dispatch = False
+                for c in ast.walk(f):
+                    if isinstance(c, ast.Call) and dotted(c.func) in ("isinstance", "type") and c.args and isinstance(c.args[0], ast.Name) and c.args[0].id in params:
+                        type_dispatch = True
+                ok = typed or not type_dispatch
+                r.ob("R9.4", f"{rel}::{f.name} memoised with `{norm_src(d)}`", ok,
+                     f"`{f.name}` branches on the type of its argument but its cache is not typed: arguments that compare equal (0.5 and numpy.float32(0.5), "
+                     "0.0 and -0.0, 1.0 and True) share one cache entry, so the result depends on which of them was seen first in the process", loc(rel, f))
+    if n94 < 2:
+        raise AnalysisError(f"R9.4 found only {n94} memoised functions; expected the lru_cache'd parameter functions of floating_point_algorithms.py")
 
     # ------------------------------------------------------------------ R9.3
     n93 = 0
